@@ -149,7 +149,8 @@ func merge(
 		case hasNewValue && hasOldValue:
 			// merge and compress
 			encoder.AppendTime(bit.One)
-			encoder.AppendValue(math.Float64bits(fieldType.AggType().Aggregate(newValue, oldValue)))
+			// (old, new) like the write path: the order matters for last/first fields
+			encoder.AppendValue(math.Float64bits(fieldType.AggType().Aggregate(oldValue, newValue)))
 		case !hasNewValue && hasOldValue:
 			// compress old value
 			encoder.AppendTime(bit.One)
